@@ -355,7 +355,7 @@ pub fn run(tier: Tier) {
     let samples_out = Samples::new(8);
 
     // ---------------- (1) strings in every position
-    let strings = hostile_strings(tier.pick(3, 4));
+    let strings = hostile_strings(tier.pick(4, 5));
     let n_strings = strings.len();
     strings.par_iter().enumerate().for_each(|(i, s)| {
         let class = string_class(s);
@@ -388,7 +388,7 @@ pub fn run(tier: Tier) {
     });
 
     // ---------------- (3) expressions from the grammar
-    let exprs = expression_sources(tier.pick(2, 3));
+    let exprs = expression_sources(tier.pick(3, 3));
     let n_exprs = exprs.len();
     let parsed = AtomicUsize::new(0);
     exprs.par_iter().enumerate().for_each(|(i, (shape, src))| {
@@ -508,7 +508,7 @@ pub fn run(tier: Tier) {
                 trees.push((format!("({} then {}) right-nested", infix[a].0, infix[c].0), T::Node(Box::new(T::Leaf(1)), a, Box::new(T::Node(Box::new(T::Leaf(2)), c, Box::new(T::Leaf(3)))))));
             }
         }
-        if tier == Tier::Thorough {
+        {
             for a in 0..n {
                 for c in 0..n {
                     for d in 0..n {
@@ -607,7 +607,7 @@ pub fn run(tier: Tier) {
         "authorizer_dump_round_trips": counters.authorizer_paths.load(Ordering::Relaxed),
         "exhaustive": true,
         "samples": samples_out.take(),
-        "rule": "every string up to the length bound over a 16-character hostile alphabet in every string position (plain / set member / array member / map key / map value x fact / rule head / rule body / check / policy / expression operand); every term of nesting depth <= 2 over all kinds in every position; every expression derivation up to the depth bound generated as source text and parsed to obtain its AST (every infix operator, method, unary, closure, with every shape as either operand, bare and parenthesised); every operator as a hand-built op sequence; every pair (thorough: every triple in the five tree shapes) of the 17 infix operators in both nestings as AST-first op sequences whose parentheses follow the specification's precedence table, not the parser; rules / checks of the three kinds / policies with 1-2 alternatives and every scope set incl. both key algorithms; blocks with block-level scopes. Oracle: parse(print(x)) == x and print(parse(print(x))) == print(x) through the builder Display, through Biscuit::print_block_source -> BlockBuilder::code on a reloaded token, and through (Authorizer|AuthorizerBuilder)::dump_code -> AuthorizerBuilder::code. distinct_nontrivial = distinct items round-tripped",
+        "rule": "every string up to the length bound over a 16-character hostile alphabet in every string position (plain / set member / array member / map key / map value x fact / rule head / rule body / check / policy / expression operand); every term of nesting depth <= 2 over all kinds in every position; every expression derivation up to the depth bound generated as source text and parsed to obtain its AST (every infix operator, method, unary, closure, with every shape as either operand, bare and parenthesised); every operator as a hand-built op sequence; every pair and every triple (in the five tree shapes) of the 17 infix operators in both nestings as AST-first op sequences whose parentheses follow the specification's precedence table, not the parser; rules / checks of the three kinds / policies with 1-2 alternatives and every scope set incl. both key algorithms; blocks with block-level scopes. Oracle: parse(print(x)) == x and print(parse(print(x))) == print(x) through the builder Display, through Biscuit::print_block_source -> BlockBuilder::code on a reloaded token, and through (Authorizer|AuthorizerBuilder)::dump_code -> AuthorizerBuilder::code. distinct_nontrivial = distinct items round-tripped",
     });
     ctx.finish("exploration", cov, vec!["dates are limited to RFC 3339 years 0000-9999 (the grammar's date literal)".into(), "op sequences that no source text produces are reported under operator-op-sequence".into()]);
 }
